@@ -11,7 +11,9 @@ from ..universe import make_event
 
 ID = "C10"
 LEVEL = "model_checking"
-ASSUMPTIONS = ["LMDB double (see DESIGN.md section 6); pure-python msgpack codec from pip"]
+ASSUMPTIONS = ["LMDB double (DESIGN.md section 6 and 11); its transaction / cursor semantics are compared with the real liblmdb 0.9.31 (ctypes) on all "
+               "operation sequences up to depth 3 (quick) / 4 (thorough) in this very check - reported as skipped, never as passed, if the "
+               "library is absent", "pure-python msgpack codec from pip"]
 
 MAX_TAG_VALUE = 256  # mirrors TagIndex.max_value_size (documented layout: long values keyed by sha256)
 
@@ -151,10 +153,44 @@ CHECK = store.StoreCheck(
 CHECK.export(globals())
 
 _base_run_case = CHECK.run_case
+_base_cases = CHECK.cases
+
+
+def cases(tier):
+    """STORE shards plus the binding of the LMDB double to the real liblmdb (differential run of all short operation sequences)"""
+    from .. import lmdbconf
+
+    out = list(_base_cases(tier))
+    for i in range(len(lmdbconf.OPS)):
+        out.append(("conformance", "liblmdb", [i], 3 if tier == "quick" else 4))
+    return out
+
+
+def describe(case):
+    backend, un, p, d = case
+    return {"backend": backend, "universe": un, "prefix": p, "depth": d}
+
+
+def run_conformance(case):
+    from .. import lmdbconf
+
+    _, _, (i,), depth = case
+    r = lmdbconf.run(depth, first_op=i)
+    viol = []
+    if r["mismatches"]:
+        viol.append({"case": "conformance", "clause": "double-agrees-with-liblmdb", "sig": "first_op=%d" % i,
+                     "detail": "the LMDB double disagrees with the real library on %d of %d operation sequences; first: %r" % (
+                         r["mismatches"], r["sequences"], r.get("first_mismatch"))})
+    key = "liblmdb_conformance_skipped" if r["skipped"] else "liblmdb_conformance_sequences"
+    return {"id": "conformance|%d" % i, "viol": viol, "outcome": None, "evals": max(1, r["sequences"]), "states": 0, "transitions": 0,
+            "nontrivial": not r["skipped"], "desc": describe(case), "extra": {key: max(1, r["sequences"])},
+            "sample": {"case": "conformance", "first_op": repr(lmdbconf.OPS[i])[:40], "sequences": r["sequences"], "library": r["library"]}}
 
 
 def run_case(case):
     """after the BFS shard: additional GC / delete_event transitions from every member's singleton and pair stores"""
+    if case[0] == "conformance":
+        return run_conformance(case)
     r = _base_run_case(case)
     backend, un, prefix, depth = case
     uni = CHECK.U()[un]
